@@ -31,7 +31,7 @@ LEVEL_NOTE = (
 )
 TECHNIQUE = "property-based testing (Hypothesis), model-based operation sequences vs numpy reference model + coverage-guided fuzzing stage (atheris/libFuzzer driving the same strategy and oracle)"
 BUDGET = {"quick": 6000, "thorough": 150000}
-FUZZ = {"quick": 3200, "thorough": 160000}  # executions of the coverage-guided stage (vlib/fuzz.py)
+FUZZ = {"quick": 3200, "thorough": 32000}  # executions of the coverage-guided stage (vlib/fuzz.py)
 RULE = (
     "case = (shape, n_infinite, value function with zero/chain/loop elements, sequence of <=12 operations: "
     "get(index expression of ints incl. negative finite ones, np.integer, equal-length lists, forward slices), "
